@@ -92,7 +92,7 @@ def log_likelihood_cached(reads: A[f8, 3], genotype: A[i1, 2], read_counts: Opt[
     requires(reads.shape[1] == genotype.shape[1], len(genotype) >= 1)
     requires(implies(read_counts is not None, len(read_counts) == len(reads)))
     requires(forall(0, len(genotype), lambda h: forall(0, genotype.shape[1], lambda j: 0 <= genotype[h, j] and genotype[h, j] < reads.shape[2])))
-    requires(forall(lambda r, j, a: not isninf(reads[r, j, a]) and (isnan(reads[r, j, a]) or reads[r, j, a] >= 0)))
+    requires(READSOK(reads, len(reads), reads.shape[1], reads.shape[2]))
     requires(implies(read_counts is not None, forall(0, len(reads), lambda r: read_counts[r] >= 0 and implies(read_counts[r] == 0, RP(reads, genotype, r, len(genotype), genotype.shape[1], len(genotype)) > 0))))
     # every read has positive probability, so the likelihood is finite and can be cached
     requires(not isninf(LLK(reads, ones_if_none(read_counts), genotype, len(genotype), genotype.shape[1], len(reads))))
@@ -115,7 +115,7 @@ def log_likelihood_structural_change_cached(reads: A[f8, 3], genotype: A[i1, 2],
     requires(implies(interval is not None, len(interval) == 2 and 0 <= interval[0] and interval[0] <= interval[1] and interval[1] <= genotype.shape[1]))
     requires(implies(read_counts is not None, len(read_counts) == len(reads)))
     requires(forall(0, len(genotype), lambda h: forall(0, genotype.shape[1], lambda j: 0 <= genotype[h, j] and genotype[h, j] < reads.shape[2])))
-    requires(forall(lambda r, j, a: not isninf(reads[r, j, a]) and (isnan(reads[r, j, a]) or reads[r, j, a] >= 0)))
+    requires(READSOK(reads, len(reads), reads.shape[1], reads.shape[2]))
     requires(implies(read_counts is not None, forall(0, len(reads), lambda r: read_counts[r] >= 0 and implies(read_counts[r] == 0, RP(reads, GP, r, len(genotype), genotype.shape[1], len(genotype)) > 0))))
     requires(not isninf(LLK(reads, ones_if_none(read_counts), GP, len(genotype), genotype.shape[1], len(reads))))
     requires(implies(cache is not None, AMOK(cache) and cache[2] == len(genotype) * genotype.shape[1] and forall(0, len(genotype), lambda h: forall(0, genotype.shape[1], lambda j: genotype[h, j] < cache[0].shape[1]))))
